@@ -175,6 +175,7 @@ func satisfiable(fs []Formula, m map[Atom]int8, budget *int) (bool, map[Atom]int
 // ---------- per function context ----------
 
 type entFn struct {
+	ineqs      map[Atom]ineqRec // the integer comparisons behind gt/lt atoms (for the linear-arithmetic fallback)
 	elemStores map[types.Object][]ast.Node // S[i] = v statements per local S
 	w          *World
 	root       *Func // outermost declaration (or package-level literal)
@@ -1003,28 +1004,40 @@ func (e *entFn) cmpForms(l, r linForm, op token.Token, objs []types.Object) Form
 		l, r = r, l
 		op = map[token.Token]token.Token{token.LSS: token.GTR, token.GTR: token.LSS, token.LEQ: token.GEQ, token.GEQ: token.LEQ}[op]
 	}
+	if e.ineqs == nil {
+		e.ineqs = map[Atom]ineqRec{}
+	}
+	gt := func(c int64) Atom {
+		a := e.noteAtom(gtAtom(l, c), objs)
+		e.ineqs[a] = ineqRec{l: l, r: constForm(c), gtC: true}
+		return a
+	}
+	lt := func(a, b linForm) Atom {
+		at := e.noteAtom(Atom("lt("+a.String()+","+b.String()+")"), objs)
+		e.ineqs[at] = ineqRec{l: a, r: b}
+		return at
+	}
 	if r.isConst() {
 		switch op {
 		case token.GTR:
-			return e.noteAtom(gtAtom(l, r.c), objs)
+			return gt(r.c)
 		case token.GEQ:
-			return e.noteAtom(gtAtom(l, r.c-1), objs)
+			return gt(r.c - 1)
 		case token.LSS:
-			return Not{e.noteAtom(gtAtom(l, r.c-1), objs)}
+			return Not{gt(r.c - 1)}
 		case token.LEQ:
-			return Not{e.noteAtom(gtAtom(l, r.c), objs)}
+			return Not{gt(r.c)}
 		}
 	}
-	ls, rs := l.String(), r.String()
 	switch op {
 	case token.LSS:
-		return e.noteAtom(Atom("lt("+ls+","+rs+")"), objs)
+		return lt(l, r)
 	case token.GTR:
-		return e.noteAtom(Atom("lt("+rs+","+ls+")"), objs)
+		return lt(r, l)
 	case token.LEQ:
-		return Not{e.noteAtom(Atom("lt("+rs+","+ls+")"), objs)}
+		return Not{lt(r, l)}
 	}
-	return Not{e.noteAtom(Atom("lt("+ls+","+rs+")"), objs)}
+	return Not{lt(l, r)}
 }
 
 func isTerminating(info *types.Info, s ast.Stmt) bool {
